@@ -23,14 +23,14 @@ EXPLANATION = (
 
 def run(S):
     T.KT = T.KindTable(S.driver, S.adts)
-    KL = 2 if S.tier == 'quick' else 3
-    KF = 3 if S.tier == 'quick' else 4
+    KL = 2 if S.tier == 'quick' else 4
+    KF = 3 if S.tier == 'quick' else 5
     found = flows.explore_parens(S)
     found += flows.explore_flow(S, KF, want=('C04',))
     found += lists.explore(S, KL, want=('C04',))
     # flow/paren models are confirmed on the same corpus
     lists.report(S, 'C04', found)
-    fm = mathargs.explore(S, 3 if S.tier == 'quick' else 4, want=('C04',))
+    fm = mathargs.explore(S, 3 if S.tier == 'quick' else 5, want=('C04',))
     mathargs.report(S, 'C04', fm)
     fi = imports.explore(S, want=('C04',))
     imports.report(S, 'C04', fi)
